@@ -251,7 +251,7 @@ func genC16C(t *rapid.T) C16CCase {
 		case "init":
 			// later-fail: everything the client sends during the handshake besides the two handshake messages is lost
 			// (whether it sends anything else is its business; whatever Initialize then returns, state and guard must agree with it)
-			op.Init = rapid.SampledFrom([]string{"ok", "ok", "transport-error", "rpc-error", "malformed", "notify-fails", "later-fail"}).Draw(t, "init")
+			op.Init = rapid.SampledFrom([]string{"ok", "ok", "transport-error", "rpc-error", "rpc-error-0", "malformed", "notify-fails", "later-fail"}).Draw(t, "init")
 			if c.Kind == 2 && op.Init == "later-fail" {
 				op.Init = "ok"
 			}
@@ -333,6 +333,8 @@ func execC16C(c C16CCase) *Failure {
 			switch nextInit {
 			case "rpc-error":
 				return FakeAction{Kind: "rpc-error"}
+			case "rpc-error-0":
+				return FakeAction{Kind: "rpc-error-0"}
 			case "malformed":
 				return FakeAction{Kind: "malformed"}
 			}
@@ -430,6 +432,8 @@ func execC16C(c C16CCase) *Failure {
 		switch mode {
 		case "rpc-error":
 			plan["request:initialize"] = []FakeAction{{Kind: "rpc-error"}}
+		case "rpc-error-0":
+			plan["request:initialize"] = []FakeAction{{Kind: "rpc-error-0"}}
 		case "malformed":
 			plan["request:initialize"] = []FakeAction{{Kind: "malformed"}}
 		case "transport-error":
